@@ -1,6 +1,7 @@
 package main
 
 import (
+	"fmt"
 	"encoding/json"
 	"go/types"
 	"os"
@@ -174,6 +175,26 @@ func armPaths(p *Program, fn *ssa.Function, start *ssa.BasicBlock, stop map[*ssa
 				}
 				if strings.HasPrefix(t, `fmt.Errorf("%s", List(Field(`) && strings.HasSuffix(t, ".Body)))") {
 					end = "return-plugin-error"
+				}
+				if os.Getenv("AGECHECK_DEBUG_C16") != "" && end == "return-error" {
+					fmt.Fprintf(os.Stderr, "c16 outcome term: %s\n", t)
+				}
+				// the plugin's text carried by an error type of the module whose Error method
+				// returns exactly that field: &reportedError{string(s.Body)}
+				if i := strings.Index(t, "{"); i > 0 && strings.HasPrefix(t, "plugin.") && strings.HasSuffix(t, ".Body)}") && strings.Count(t, ": ") == 1 {
+					tn := t[:i]
+					field := strings.TrimSpace(strings.SplitN(t[i+1:], ":", 2)[0])
+					if em := p.Func(pkgPlugin, strings.TrimPrefix(tn, "plugin."), "Error"); em != nil {
+						all := len(returnsOf(em)) > 0
+						for _, er := range returnsOf(em) {
+							if short(p.TB(em).Term(er.Results[0]).String()) != "Field(Recv."+field+")" {
+								all = false
+							}
+						}
+						if all {
+							end = "return-plugin-error"
+						}
+					}
 				}
 				// the same error built without a format: errors.New(string(s.Body))
 				if strings.HasPrefix(t, `errors.New(Field(`) && strings.HasSuffix(t, ".Body))") {
